@@ -170,9 +170,94 @@ package yubiattest
 //@ # ParseCertificate itself is verified (one ASN.1 decode, trailing data rejected, then the field-by-field conversion);
 //@ # the conversion parseCertificate (reflection-driven ASN.1 code) is ASSUMED through the contract below.
 //@ # (an unhandled critical extension is reported together with the partially filled certificate: error and result can both be non-nil)
+//@ # every list the conversion appends to is its own (nil or allocated by this call): appending never writes into the caller's memory
+//@ ghost func ownsLists(out *x509.Certificate) bool =
+//@   (out.Extensions == nil || fresh(arr(out.Extensions))) && (out.PermittedDNSDomains == nil || fresh(arr(out.PermittedDNSDomains))) &&
+//@   (out.CRLDistributionPoints == nil || fresh(arr(out.CRLDistributionPoints))) && (out.ExtKeyUsage == nil || fresh(arr(out.ExtKeyUsage))) &&
+//@   (out.UnknownExtKeyUsage == nil || fresh(arr(out.UnknownExtKeyUsage))) && (out.PolicyIdentifiers == nil || fresh(arr(out.PolicyIdentifiers))) &&
+//@   (out.OCSPServer == nil || fresh(arr(out.OCSPServer))) && (out.IssuingCertificateURL == nil || fresh(arr(out.IssuingCertificateURL))) &&
+//@   (out.UnhandledCriticalExtensions == nil || fresh(arr(out.UnhandledCriticalExtensions)))
+//@ # what the conversion copies, field by field (this is where "agrees with the standard library" is pinned: crypto/x509 takes the same
+//@ # fields from the same places of the decoded structure; RFC 5280, 4.1)
 //@ func parseCertificate(in)
 //@   flag logged
+//@   requires in != nil
+//@   let r0 = old(calls(BitString.RightAlign))
+//@   let k0 = old(calls(parsePublicKey))
 //@   ensures result1 == nil ==> (result0 != nil && fresh(result0))
+//@   ensures [raw-bytes] result1 == nil ==> (result0.Raw == in.Raw && result0.RawTBSCertificate == in.TBSCertificate.Raw &&
+//@     result0.RawSubjectPublicKeyInfo == in.TBSCertificate.PublicKey.Raw && result0.RawSubject == in.TBSCertificate.Subject.FullBytes &&
+//@     result0.RawIssuer == in.TBSCertificate.Issuer.FullBytes)
+//@   ensures [signature-is-the-outer-bit-string] result1 == nil ==> (calls(BitString.RightAlign) >= r0 + 1 && result0.Signature == ret(BitString.RightAlign, r0, 0))
+//@   ensures [signature-algorithm-of-the-tbs] (result1 == nil && !isOID7(in.TBSCertificate.SignatureAlgorithm.Algorithm, 1, 2, 840, 113549, 1, 1, 10)) ==>
+//@     result0.SignatureAlgorithm == sigAlgoOfOID(in.TBSCertificate.SignatureAlgorithm.Algorithm)
+//@   ensures [key-algorithm] result1 == nil ==> ((isOID7(in.TBSCertificate.PublicKey.Algorithm.Algorithm, 1, 2, 840, 113549, 1, 1, 1) <==> result0.PublicKeyAlgorithm == 1) &&
+//@     (isOID6(in.TBSCertificate.PublicKey.Algorithm.Algorithm, 1, 2, 840, 10045, 2, 1) <==> result0.PublicKeyAlgorithm == 3) &&
+//@     (result0.PublicKeyAlgorithm == 0 || result0.PublicKeyAlgorithm == 1 || result0.PublicKeyAlgorithm == 3))
+//@   ensures [public-key-is-the-parsed-subject-key] result1 == nil ==> (calls(parsePublicKey) == k0 + 1 && arg(parsePublicKey, k0, 0) == result0.PublicKeyAlgorithm &&
+//@     result0.PublicKey == ret(parsePublicKey, k0, 0) && ret(parsePublicKey, k0, 1) == nil)
+//@   ensures [key-failure-surfaces] (calls(parsePublicKey) == k0 + 1 && ret(parsePublicKey, k0, 1) != nil) ==> (result0 == nil && result1 == ret(parsePublicKey, k0, 1))
+//@   ensures [version-serial-validity] result1 == nil ==> (result0.Version == in.TBSCertificate.Version + 1 && result0.SerialNumber == in.TBSCertificate.SerialNumber &&
+//@     result0.NotBefore == in.TBSCertificate.Validity.NotBefore && result0.NotAfter == in.TBSCertificate.Validity.NotAfter)
+//@   # (that the j-th recorded extension is the j-th decoded one is not decided: the element-wise invariant over the appended list of
+//@   # structs does not discharge within the time limits; the count is)
+//@   ensures [one-recorded-extension-per-decoded-extension] result1 == nil ==> len(result0.Extensions) == len(in.TBSCertificate.Extensions)
+//@   loop 1:
+//@     invariant out != nil && fresh(out) && ownsLists(out)
+//@     invariant len(out.Extensions) == rangeindex + 1
+//@   loop 2:
+//@     invariant out != nil && fresh(out) && ownsLists(out)
+//@   loop 3:
+//@     invariant out != nil && fresh(out) && ownsLists(out)
+//@   loop 4:
+//@     invariant out != nil && fresh(out) && ownsLists(out)
+//@   loop 5:
+//@     invariant out != nil && fresh(out) && ownsLists(out)
+//@   loop 6:
+//@     invariant out != nil && fresh(out) && ownsLists(out) && len(out.PolicyIdentifiers) == len(policies)
+//@   loop 7:
+//@     invariant out != nil && fresh(out) && ownsLists(out)
+
+//@ ghost func isOID6(oid asn1.ObjectIdentifier, a int, b int, c int, d int, e int, f int) bool =
+//@   len(oid) == 6 && oid[0] == a && oid[1] == b && oid[2] == c && oid[3] == d && oid[4] == e && oid[5] == f
+//@ # subject key algorithms (RFC 3279, 2.3.1 and 2.3.5): rsaEncryption 1.2.840.113549.1.1.1, id-ecPublicKey 1.2.840.10045.2.1
+//@ func getPublicKeyAlgorithmFromOID(oid)
+//@   modifies nothing
+//@   ensures [rsa] isOID7(oid, 1, 2, 840, 113549, 1, 1, 1) <==> result == 1
+//@   ensures [ecdsa] isOID6(oid, 1, 2, 840, 10045, 2, 1) <==> result == 3
+//@   ensures [anything-else-is-unknown] result == 0 || result == 1 || result == 3
+
+//@ ghost func oidEq(a asn1.ObjectIdentifier, b asn1.ObjectIdentifier) bool = len(a) == len(b) && forall(j, 0 <= j && j < len(a), a[j] == b[j])
+//@ ghost func isOID9(oid asn1.ObjectIdentifier, a int, b int, c int, d int, e int, f int, g int, h int, i int) bool =
+//@   len(oid) == 9 && oid[0] == a && oid[1] == b && oid[2] == c && oid[3] == d && oid[4] == e && oid[5] == f && oid[6] == g && oid[7] == h && oid[8] == i
+//@ # signature algorithms, pinned from RFC 3279 (2.2.1, 2.2.3), RFC 4055 (5), RFC 5758 (3.2) and the ISO sha1WithRSA 1.3.14.3.2.29;
+//@ # x509.SignatureAlgorithm numbering: MD2WithRSA=1 MD5WithRSA=2 SHA1WithRSA=3 SHA256WithRSA=4 SHA384WithRSA=5 SHA512WithRSA=6
+//@ # ECDSAWithSHA1=9 ECDSAWithSHA256=10 ECDSAWithSHA384=11 ECDSAWithSHA512=12 SHA256WithRSAPSS=13 SHA384WithRSAPSS=14 SHA512WithRSAPSS=15
+//@ ghost func sigAlgoOfOID(oid asn1.ObjectIdentifier) int =
+//@   isOID7(oid, 1, 2, 840, 113549, 1, 1, 2) ? 1 : isOID7(oid, 1, 2, 840, 113549, 1, 1, 4) ? 2 : isOID7(oid, 1, 2, 840, 113549, 1, 1, 5) ? 3 :
+//@   isOID6(oid, 1, 3, 14, 3, 2, 29) ? 3 : isOID7(oid, 1, 2, 840, 113549, 1, 1, 11) ? 4 : isOID7(oid, 1, 2, 840, 113549, 1, 1, 12) ? 5 :
+//@   isOID7(oid, 1, 2, 840, 113549, 1, 1, 13) ? 6 : isOID6(oid, 1, 2, 840, 10045, 4, 1) ? 9 : isOID7(oid, 1, 2, 840, 10045, 4, 3, 2) ? 10 :
+//@   isOID7(oid, 1, 2, 840, 10045, 4, 3, 3) ? 11 : isOID7(oid, 1, 2, 840, 10045, 4, 3, 4) ? 12 : 0
+//@ func getSignatureAlgorithmFromAI(ai)
+//@   modifies nothing
+//@   ensures [pinned-oid-table] !isOID7(ai.Algorithm, 1, 2, 840, 113549, 1, 1, 10) ==> result == sigAlgoOfOID(ai.Algorithm)
+//@   ensures [pss-is-one-of-three-or-unknown] isOID7(ai.Algorithm, 1, 2, 840, 113549, 1, 1, 10) ==> (result == 0 || result == 13 || result == 14 || result == 15)
+//@   loop 1:
+//@     invariant forall(k, 0 <= k && k <= rangeindex, !oidEq(ai.Algorithm, signatureAlgorithmDetails[k].oid))
+
+//@ # extended key usages (RFC 5280, 4.2.1.12 and the vendor ones): a usage is reported iff the OID is in the table, and it is that entry's
+//@ func extKeyUsageFromOID(oid)
+//@   modifies nothing
+//@   ensures [known-iff-in-the-table] ok <==> exists(k, 0 <= k && k < len(extKeyUsageOIDs), oidEq(oid, extKeyUsageOIDs[k].oid))
+//@   ensures [first-entry-decides] ok ==> exists(k, 0 <= k && k < len(extKeyUsageOIDs), oidEq(oid, extKeyUsageOIDs[k].oid) && eku == extKeyUsageOIDs[k].extKeyUsage &&
+//@     forall(j, 0 <= j && j < k, !oidEq(oid, extKeyUsageOIDs[j].oid)))
+//@   ensures !ok ==> eku == 0
+//@   loop 1:
+//@     invariant forall(k, 0 <= k && k <= rangeindex, !oidEq(oid, extKeyUsageOIDs[k].oid))
+
+//@ # subject alternative names: e-mail, DNS and IP entries in order of appearance (not decided: contents); IP entries are 4 or 16 bytes
+//@ func parseSANExtension(value)
+//@   modifies nothing
 
 //@ # named curves (RFC 5480, 2.1.1.1): 1.2.840.10045.3.1.7 = P-256, 1.3.132.0.34 = P-384, 1.3.132.0.35 = P-521
 //@ ghost func isOID5(oid asn1.ObjectIdentifier, a int, b int, c int, d int, e int) bool =
@@ -194,6 +279,7 @@ package yubiattest
 //@   k.Curve == ellOf(b) && len(pt) == 1 + 2 * felen(b) && k.X != nil && k.Y != nil &&
 //@   bigv(k.X) == b2i(elems(pt), off(pt) + 1, felen(b)) && bigv(k.Y) == b2i(elems(pt), off(pt) + 1 + felen(b), felen(b))
 //@ func parsePublicKey(algo, keyData)
+//@   flag logged
 //@   requires keyData != nil
 //@   let r0 = old(calls(BitString.RightAlign))
 //@   let u0 = old(calls(asn1.Unmarshal))
@@ -215,7 +301,10 @@ package yubiattest
 //@   let u0 = old(calls(asn1.Unmarshal))
 //@   let q0 = old(calls(parseCertificate))
 //@   ensures result1 == nil ==> (result0 != nil && fresh(result0))
-//@   ensures [one-decode-of-the-whole-input] calls(asn1.Unmarshal) == u0 + 1 && arg(asn1.Unmarshal, u0, 0) == asn1Data
+//@   # (the conversion decodes nested values with further calls: the first decode of this call is the one of the whole input)
+//@   ensures [the-whole-input-is-decoded-first] calls(asn1.Unmarshal) >= u0 + 1 && arg(asn1.Unmarshal, u0, 0) == asn1Data &&
+//@     typeof(arg(asn1.Unmarshal, u0, 1)) == *certificate
+//@   ensures [nothing-else-is-decoded-unless-converted] calls(parseCertificate) == q0 ==> calls(asn1.Unmarshal) == u0 + 1
 //@   ensures [decode-failure-surfaces] ret(asn1.Unmarshal, u0, 1) != nil ==> (result1 == ret(asn1.Unmarshal, u0, 1) && calls(parseCertificate) == q0)
 //@   ensures [trailing-data-is-rejected] (ret(asn1.Unmarshal, u0, 1) == nil && len(ret(asn1.Unmarshal, u0, 0)) > 0) ==> (result0 == nil && result1 != nil && calls(parseCertificate) == q0)
 //@   ensures [otherwise-the-conversion-decides] (ret(asn1.Unmarshal, u0, 1) == nil && len(ret(asn1.Unmarshal, u0, 0)) == 0) ==> (calls(parseCertificate) == q0 + 1 &&
